@@ -85,8 +85,14 @@ func (cm *MemClientMgr) Add(cc *ClientConn) {
 	cm.mu.Lock()
 	defer cm.mu.Unlock()
 
-	cm.nextClientID.Add(1)
-	binary.BigEndian.PutUint16(cc.ID[:], uint16(cm.nextClientID.Load()))
+	// The ID counter wraps at 16 bits: skip IDs that are still held by a connected client.
+	for {
+		cm.nextClientID.Add(1)
+		binary.BigEndian.PutUint16(cc.ID[:], uint16(cm.nextClientID.Load()))
+		if _, inUse := cm.clients[cc.ID]; !inUse {
+			break
+		}
+	}
 
 	cm.clients[cc.ID] = cc
 }
